@@ -6,7 +6,7 @@ use crate::e1::Vector;
 use crate::expect::Expectation;
 use crate::report::Report;
 use crate::tape::{fnv_str, sample_tapes, Tape};
-use crate::world::exec::{corruptions, payload, Executor, Expect};
+use crate::world::exec::{abstract_tags, corruptions, payload, Executor, Expect};
 use serde_json::{json, Value};
 
 pub fn build_item(tape: &[u8], cfg: &CaseCfg, n_payloads: usize, max_corr: usize, stats: &mut GenStats) -> Option<Item> {
@@ -30,8 +30,10 @@ pub fn build_item(tape: &[u8], cfg: &CaseCfg, n_payloads: usize, max_corr: usize
             let pl = payload(&p);
             let base_idx = base.case.vectors.len();
             base.case.vectors.push(Vector { unit: ui, kind: "response".into(), name: String::new(), input: pl });
-            expects.push(Expectation::Any);
-            nt.push(None);
+            // the uncorrupted payload: every known `__typename` selects its own variant
+            let tags = abstract_tags(&p);
+            nt.push(if tags.is_empty() { None } else { Some(fnv_str(&[&base.case.schema_text, &base.case.document, &base.case.vectors[base_idx].input.to_string(), "tags"])) });
+            expects.push(if tags.is_empty() { Expectation::Any } else { Expectation::KnownTags { tags } });
             labels.push(format!("base#{} op={}", k, u.op_name));
             depends.push(None);
             let mut cs = corruptions(&p, base.case.opts.other_variant, &base.world.schema);
@@ -64,7 +66,7 @@ fn classify(_f: &Failure) -> Option<String> {
 }
 
 pub fn run(report: &mut Report, replay: Option<&Value>) {
-    report.rule = "for each conforming payload from the model executor (precondition: the uncorrupted payload deserialises), every single-point corruption (small payloads exhaustively, large ones sampled to a cap): null or missing key at a non-null position, scalar of the wrong JSON kind, non-list where a list is required -> must be Err; unknown __typename at an abstract position -> Err (other-variant off) or Ok with re-serialised tag `Unknown` (on); __typename swapped to another possible type -> if Ok, the re-serialised tag is that type. Non-trivial: the corrupted position is below the first level or inside a variant / list; distinct by hash(schema, document, corrupted payload).".into();
+    report.rule = "for each conforming payload from the model executor (precondition: the uncorrupted payload deserialises), every single-point corruption (small payloads exhaustively, large ones sampled to a cap): null or missing key at a non-null position, scalar of the wrong JSON kind, non-list where a list is required -> must be Err; unknown __typename at an abstract position -> Err (other-variant off) or Ok with re-serialised tag `Unknown` (on); __typename swapped to another possible type -> if Ok, the re-serialised tag is that type; the uncorrupted payload itself -> if Ok, every abstract position re-serialises its own tag, and it never fails with `unknown variant`. Non-trivial: the corrupted position is below the first level or inside a variant / list; distinct by hash(schema, document, corrupted payload).".into();
     report.assumptions = vec![
         "rustc 1.95 + serde/serde_json as installed are correct".into(),
         "not asserted under deprecated = deny (fields legitimately absent); custom scalar types supplied by the harness are strict about the JSON kind".into(),
